@@ -642,6 +642,7 @@ class CallMixin:
                     self.emit(st, fx, "LOOKUP", node, key=key, hit=True, how="pop", **common)
                 self.emit(st, fx, "UNREG", node, key=key, how="pop(key)", elem=t, **common)
                 st.hits.discard((reg, key))
+                st.hits.add(("gone", reg, key))
             else:
                 if name in ("popleft", "pop") and not self._known_nonempty(recv, st):
                     # taking from a deque that may be empty: IndexError
@@ -653,7 +654,7 @@ class CallMixin:
             yield "ok", t, st
         elif name in ("clear",):
             self.emit(st, fx, "UNREG", node, key=None, how="clear", elem=None, **common)
-            st.hits = {h for h in st.hits if h[0] != reg}
+            st.hits = {h for h in st.hits if h[0] != reg and not (h[0] == "gone" and h[1] == reg)}
             self._drop_reg_facts(st, reg)
             yield "ok", NONE, st
         elif name in ("remove",):
